@@ -750,6 +750,8 @@ class SVG:
                 # For example, a stroke-width with no stroke set is removed
                 for path in paths:
                     _reset_attrs(path, lambda field: field.name.startswith("stroke"))
+                    # clip-rule only applies within a clipPath element
+                    path.clip_rule = "nonzero"
 
                 # Apply any transform
                 if context.transform != Affine2D.identity():
